@@ -82,27 +82,7 @@ def judge(seq, cfg):
 import socket  # noqa: E402
 
 
-class ChunkSocket(socket.socket):
-    """A socket that delivers the data in chunks of a fixed size, then closes."""
-
-    def __init__(self, data, chunk):  # pylint: disable=super-init-not-called
-        self.data, self.chunk, self.p, self.after = data, chunk, 0, 0
-
-    def recv(self, n, *a):
-        if self.p >= len(self.data):
-            self.after += 1
-            if self.after > 64:
-                raise streams.Horizon()
-            return b""
-        out = self.data[self.p : self.p + min(n, self.chunk)]
-        self.p += len(out)
-        return out
-
-    def close(self):
-        pass
-
-    def __del__(self):
-        pass
+ChunkSocket = streams.ChunkSocket
 
 
 def judge_socket(seq, cfg, chunk, bufsize):
